@@ -27,15 +27,18 @@ TECHNIQUE = (
 )
 RULE = (
     "candidate = one byte string: every corpus seed (valid streams + conformant variants: padding/auxiliary units, repeated "
-    "headers, prefix bytes, random slice padding bits, absent next offsets, several sequences), 121 streams packed bit by bit by "
+    "headers, prefix bytes, random slice padding bits, absent next offsets, several sequences), 171 streams packed bit by bit by "
     "vlib.gen.degenerate without repository code (LD pictures/fragments whose slice_bytes ratio gives slices of 0 or 1 bytes, i.e. "
-    "negative-length bounded blocks; HQ slices with all lengths 0 or scaler 0; grids 1x1..4x3) and vlib.gen.mutate.random_case on both pools "
+    "negative-length bounded blocks; HQ slices with all lengths 0 or scaler 0; grids 1x1..4x3; blocks with > 8192 unused bits "
+    "whose set bits lie late; 2-3 sequences with a corrupted prefix on a later sequence) and vlib.gen.mutate.random_case on both pools "
     "(byte-level, field-level without autofill, coordinated unit operators); a candidate is an evaluation only if it parses "
     "to completion (Deserialiser context manager exits cleanly and the reader is at end of stream); distinct = distinct byte "
     "string; candidates identical to a corpus seed are trivial"
 )
 ASSUMPTIONS = [
-    "'parses to completion' = the Deserialiser context manager exits without exception and the reader is at end of stream (DESIGN 7.10)",
+    "'parses to completion' = the Deserialiser context manager exits without exception and the reader is at end of stream (DESIGN 7.10); "
+    "a parse that raises is not a candidate; a clean exit that leaves input unread cannot happen with the real parse_stream loop "
+    "(it only stops at end of stream) and is reported as roundtrip:clean-exit-before-end-of-stream, not filtered out",
     "size guard (DESIGN section 3): candidates declaring dwt depths > 4, slices > 16x16, prefix bytes/scaler > 64, "
     "slice_bytes_numerator > 2^14, frame dimensions > 256, luma samples > 4096 are out of scope and not evaluated",
     "description equality is Python equality of the context dictionaries (computed '_' entries included)",
@@ -43,14 +46,15 @@ ASSUMPTIONS = [
 CASE_TIMEOUT_S = 120
 STEP_BUDGET = 100000000
 
-N_RANDOM = {"quick": 32000, "thorough": 2400000}
+N_RANDOM = {"quick": 32000, "thorough": 1000000}
 N_SHARDS = {"quick": 16, "thorough": 64}
 
 _MON = {"guard": None}
 
 # features that a conformant stream may carry (the encoder itself relies on
 # implicit 1-bits beyond the end of a bounded block)
-LEGAL_FEATURES = {"values_beyond_bounded_block", "nonzero_padding_bits", "hq_slice_all_lengths_0"}
+LEGAL_FEATURES = {"values_beyond_bounded_block", "nonzero_padding_bits", "hq_slice_all_lengths_0",
+                  "unused_block_bits_set_beyond_8192"}
 KNOWN_CODES = (0x00, 0x10, 0x20, 0x30, 0xC8, 0xE8, 0xCC, 0xEC)
 
 
@@ -131,12 +135,14 @@ def features(ctx):
     from bitarray import bitarray
 
     f = set()
-    for seq in ctx.get("sequences", ()):
+    for nseq, seq in enumerate(ctx.get("sequences", ())):
         dus = seq.get("data_units", ())
         for i, du in enumerate(dus):
             pi = du.get("parse_info", {})
             if pi.get("parse_info_prefix") != 0x42424344:
                 f.add("bad_prefix")
+                if nseq > 0 and i == 0:
+                    f.add("later_sequence_with_bad_prefix")
             pc = pi.get("parse_code")
             if pc not in KNOWN_CODES:
                 f.add("unknown_parse_code")
@@ -227,7 +233,9 @@ def features(ctx):
     for parent, k, v in leaves:
         if isinstance(v, bitarray) and v.any():
             f.add("nonzero_padding_bits")
-            break
+            if len(v) > 8192 and v[8192:].any():
+                f.add("unused_block_bits_set_beyond_8192")
+                break
     return f
 
 
@@ -307,8 +315,16 @@ def run_case(case, ctx):
         ctx.note("deserialise_errors", type(e).__name__)
         return
     if not eof:
-        # (cannot happen with the real parse_stream loop, which only stops at EOF; counted, not judged)
-        ctx.count("parsed_but_not_at_eof")
+        # The real parse_stream loops until the reader is at the end of the stream, so a
+        # clean exit of the Deserialiser context always leaves the reader there.  A clean
+        # exit with input left over means part of the input is silently missing from the
+        # description: serialising it cannot reproduce the bytes.
+        ctx.count("clean_exit_before_end_of_stream")
+        ctx.seen(jsonx.key_hash(data))
+        ctx.violation("roundtrip:clean-exit-before-end-of-stream",
+                      "the Deserialiser context exited cleanly although the reader is not at the end of the %d byte input: "
+                      "the description silently lacks the rest of the stream" % len(data),
+                      detail={"op": op, "seed": case.get("seed")})
         return
     ctx.count("parsed_to_completion")
     ctx.count("parsed:" + fam)
@@ -383,7 +399,7 @@ def floor(agg, tier):
     c = agg["counters"]
     miss = []
     q = tier == "quick"
-    need = 12000 if q else 800000
+    need = 12000 if q else 300000
     if c.get("parsed_to_completion", 0) < need:
         miss.append("fewer than %d candidates parsed to completion (%d)" % (need, c.get("parsed_to_completion", 0)))
     if c.get("not_parsed", 0) < (2000 if q else 100000):
@@ -402,6 +418,9 @@ def floor(agg, tier):
             miss.append("feature %s present in only %d parsed candidates" % (feat, c.get("feature:" + feat, 0)))
     if c.get("guard_calls", 0) == 0:
         miss.append("deserialiser guard never called")
+    for feat in ("later_sequence_with_bad_prefix", "unused_block_bits_set_beyond_8192"):
+        if c.get("feature:" + feat, 0) < (10 if q else 200):
+            miss.append("feature %s present in only %d parsed candidates" % (feat, c.get("feature:" + feat, 0)))
     if c.get("bytes_equal", 0) + c.get("bytes_differ", 0) + c.get("serialise_raised", 0) != c.get("parsed_to_completion", 0):
         miss.append("not every parsed candidate was judged")
     return miss
